@@ -161,9 +161,7 @@ theorem allocateInSubnetsAndRanges_chgN (s : State) (key : Key) (n : Subnet) (rs
       have sp := createAll_spec s (mkRec key a s.clock) picks [] s hm0 hT hnd
       dsimp only
       split
-      · rename_i hc
-        have hc' : (createAll s (mkRec key a s.clock) [] picks).2 = false := by simpa using hc
-        obtain ⟨st, _⟩ := sp.2 hc' (by simp)
+      · have st := (createAll_persist (mkRec key a s.clock) picks [] s).1
         exact Chg.of_alloc_eq st.frame st.alloc
       · rename_i hc
         have hc' : (createAll s (mkRec key a s.clock) [] picks).2 = true := by simpa using hc
@@ -256,50 +254,66 @@ theorem J_of_alloc_eq {s s' : State} (hj : J s) (ha : s'.alloc = s.alloc) (hp : 
 
 /-! ### the provider primitives -/
 
+theorem provAssign_alloc (s : State) (node : String) (ip : IP) : (provAssign s node ip).1.alloc = s.alloc :=
+  (provAssign_quiet s node ip).alloc
+
+theorem provUnassign_alloc (s : State) (node : String) (ip : IP) : (provUnassign s node ip).1.alloc = s.alloc :=
+  (provUnassign_quiet s node ip).alloc
+
 theorem J_provUnassign (s : State) (node : String) (ip : IP) (hon : s.provOn = true) (hj : J s) :
     J (provUnassign s node ip).1 := by
-  intro j
-  unfold prov
-  rw [provUnassign_plog s node ip hon, provOf_snoc, get_applyCall, provUnassign_alloc]
-  cases hok : (provUnassign s node ip).2 with
-  | false => exact hj j
-  | true =>
-    dsimp only
-    by_cases hij : ip = j
-    · rw [if_pos hij]
-      exact RecOK.of_unassigned _ (hj j).2
-    · rw [if_neg hij]; exact hj j
+  rcases provUnassign_cases s node ip hon with ⟨e, _⟩ | hl
+  · rw [e]; exact hj
+  · intro j
+    unfold prov
+    rw [hl, provOf_snoc, get_applyCall, provUnassign_alloc]
+    cases hok : (provUnassign s node ip).2 with
+    | false => exact hj j
+    | true =>
+      dsimp only
+      by_cases hij : ip = j
+      · rw [if_pos hij]
+        exact RecOK.of_unassigned _ (hj j).2
+      · rw [if_neg hij]; exact hj j
 
 /-- after a successful UnAssign the provider has the address unassigned -/
 theorem prov_provUnassign_ok (s : State) (node : String) (ip : IP) (hon : s.provOn = true)
     (hok : (provUnassign s node ip).2 = true) : Tbl.get (prov (provUnassign s node ip).1) ip = none := by
-  unfold prov
-  rw [provUnassign_plog s node ip hon, provOf_snoc, get_applyCall, hok]
-  simp
+  rcases provUnassign_cases s node ip hon with ⟨_, e⟩ | hl
+  · rw [e] at hok; cases hok
+  · unfold prov
+    rw [hl, provOf_snoc, get_applyCall, hok]
+    simp
 
 theorem prov_provUnassign_other (s : State) (node : String) (ip j : IP) (hon : s.provOn = true)
     (h : Tbl.get (prov s) j = none) : Tbl.get (prov (provUnassign s node ip).1) j = none := by
-  unfold prov
-  rw [provUnassign_plog s node ip hon, provOf_snoc, get_applyCall]
-  cases (provUnassign s node ip).2 with
-  | false => exact h
-  | true =>
-    dsimp only
-    by_cases hij : ip = j
-    · rw [if_pos hij]
-    · rw [if_neg hij]; exact h
+  rcases provUnassign_cases s node ip hon with ⟨e, _⟩ | hl
+  · rw [e]; exact h
+  · unfold prov
+    rw [hl, provOf_snoc, get_applyCall]
+    cases (provUnassign s node ip).2 with
+    | false => exact h
+    | true =>
+      dsimp only
+      by_cases hij : ip = j
+      · rw [if_pos hij]
+      · rw [if_neg hij]; exact h
 
 theorem logOK_provUnassign (s : State) (node : String) (ip : IP) (hon : s.provOn = true) (h : logOK s.plog = true) :
     logOK (provUnassign s node ip).1.plog = true := by
-  rw [provUnassign_plog s node ip hon, logOK_snoc, h]
-  rfl
+  rcases provUnassign_cases s node ip hon with ⟨e, _⟩ | hl
+  · rw [e]; exact h
+  · rw [hl, logOK_snoc, h]
+    rfl
 
 theorem logOK_provAssign (s : State) (node : String) (ip : IP) (hon : s.provOn = true) (h : logOK s.plog = true)
     (hadm : Tbl.get (prov s) ip = none ∨ Tbl.get (prov s) ip = some node) :
     logOK (provAssign s node ip).1.plog = true := by
-  rw [provAssign_plog s node ip hon, logOK_snoc, h]
-  simp only [Bool.true_and, callOK]
-  unfold prov at hadm
-  rcases hadm with h0 | h0 <;> rw [h0] <;> simp
+  rcases provAssign_cases s node ip hon with ⟨e, _⟩ | hl
+  · rw [e]; exact h
+  · rw [hl, logOK_snoc, h]
+    simp only [Bool.true_and, callOK]
+    unfold prov at hadm
+    rcases hadm with h0 | h0 <;> rw [h0] <;> simp
 
 end Galaxy.PluginC10
